@@ -2068,8 +2068,8 @@ def replay_reading_rule_witnesses(ctx):
 def replay_known_findings(ctx):
     """the listed witnesses are re-run on the real code on every run"""
     for e in vlib.load_known_findings().get("findings", []):
-        if e.get("property") != ID or "witness" not in e:
-            continue
+        if e.get("property") != ID or "witness" not in e or "isoforms" not in e["witness"]:
+            continue            # witnesses of another shape (polya_outside_*) are replayed by the PolyAOutside monitors
         w = e["witness"]
         isoforms = [{"id": t["id"], "gene": t["gene"], "strand": t["strand"], "exons": [tuple(x) for x in t["exons"]]}
                     for t in w["isoforms"]]
